@@ -26,6 +26,7 @@ ASSUMPTIONS = [
     "structurally valid view are both accepted (the repository's own test expects RuntimeError).",
     "Value tokens are compared with str(value) (lists spelled as tuples).",
 ]
+MANIFEST = {"technique": 'runtime monitoring: structural oracle on the walked view, incremental-vs-scratch differential, FS-call monitor (second call, P-contain)', "engine": 'fs-call monitor (audit hook)'}
 TIME_CAP = {"quick": 70, "thorough": 1500}
 
 UNIVERSES = {
